@@ -57,6 +57,18 @@ Theorem C09_result_schedule_free : forall {B} (zero : B) (a : nat) (files chunks
 Proof. exact (fun B zero => restore_every_file zero). Qed.
 Print Assumptions C09_result_schedule_free.
 
+(* 5. trace-level tie: the executable checkers the harness runs on event logs of the implementation are sound --
+   an accepted slot log never has more than n holders, an accepted pipeline log processes every chunk put exactly once *)
+Theorem C09_slot_trace_sound : forall evs free held mh free' held' mh' n,
+  slot_trace free evs held mh = Some (free', held', mh') ->
+  length free + held = n -> mh <= n -> length free' + held' = n /\ mh' <= n /\ mh <= mh'.
+Proof. exact slot_trace_sound. Qed.
+Theorem C09_pipe_trace_exactly_once : forall cap evs done',
+  pipe_trace cap [] [] [] evs = Some ([], [], done') -> Permutation done' (puts_of evs).
+Proof. exact pipe_trace_exactly_once. Qed.
+Print Assumptions C09_slot_trace_sound.
+Print Assumptions C09_pipe_trace_exactly_once.
+
 Theorem C09_source_facts : all_sched_facts = true.
 Proof. exact sched_facts_hold. Qed.
 Print Assumptions C09_source_facts.
